@@ -88,6 +88,11 @@ func (c *Conv) Init(n *onnx.NodeProto) error {
 
 // Apply applies the conv operator.
 func (c *Conv) Apply(inputs []tensor.Tensor) ([]tensor.Tensor, error) {
+	// Defaults derived from these inputs and the dilated kernel shape are stored on a
+	// copy, so they do not persist in the operator and leak into the next call.
+	conv := *c
+	c = &conv
+
 	x := inputs[0]
 	kernel := inputs[1]
 	bias := inputs[2]
